@@ -22,7 +22,7 @@ def load_prop(pid: str):
 
 
 def load_findings() -> list[dict]:
-    path = os.path.join(VERIF_ROOT, 'known_findings.json')
+    path = os.environ.get('KVERIF_FINDINGS', os.path.join(VERIF_ROOT, 'known_findings.json'))  # override only for self-tests of the KNOWN-FINDING path
     if not os.path.exists(path):
         return []
     with open(path) as f:
